@@ -406,12 +406,13 @@ Section Core.
     assert (Hrt : exists w, RT f (p_ty p) x w).
     { destruct Hsrc as [[j Hj]|Hm].
       - destruct (HP _ _ _ Ht Hj) as (w & Hw & _). eauto.
-      - unfold missing in Hm. destruct (p_state p) eqn:Es.
-        + destruct (set_node _ Ht) as (d & Hd & Hok & _). rewrite Hd in Hm.
-          destruct d; try discriminate. injection Hm as <-. exists JNull.
-          eapply RT_any; [exact Hd|]. intros g. rewrite ser_node_option by exact Hok. split; reflexivity.
-        + apply dflt_rt; assumption.
-        + destruct (HP _ _ _ Ht Hm) as (w & Hw & _). eauto. }
+      - destruct (p_state p) eqn:Es.
+        + (* an absent required member is taken exactly like null (IR/Serde.v [missing]) *)
+          destruct (missing_required_some T _ _ p x Es Hm) as [-> Hj].
+          destruct (HP _ _ _ Ht Hj) as (w & Hw & _). eauto.
+        + unfold missing in Hm. rewrite Es in Hm. apply dflt_rt; assumption.
+        + unfold missing in Hm. rewrite Es in Hm.
+          destruct (HP _ _ _ Ht Hm) as (w & Hw & _). eauto. }
     destruct Hrt as [w Hw]. exists w. intros g Hg. destruct (Hw g Hg) as [A B]. repeat split; auto.
     intros Hsk. apply skip_missing; [|exact Hsk].
     pose proof (src_pos f p x Hsrc (proj1 (skip_cases p x Hsk))). lia.
